@@ -13,14 +13,16 @@ What is translated, by general rules over the AST (every other form raises Untra
               the locals they assign that are read later are joined; `raise E(...)` (the message may only be built
               from constants, locals and attribute reads that already succeeded on this path, so building it cannot
               raise); `return e`; `for x in <display of constants>:` with a validating body (no stores, no variable
-              carried out of the loop), `break` and `continue` (loop_each of Lib/BusRep.v); a call into another object
+              carried out of the loop or from one iteration to the next), `break` and `continue` (loop_each of
+              Lib/BusRep.v); a call into another object
               (`<map>.add_window(...)`, `<map>.align_to(...)`, `MemoryMap(...)`) as a statement, as the right-hand
               side of an assignment or as the operand of `return`; `super().__init__({"bus": In|Out(Signature(..))})`.
  expressions  ints, strings, True/False/None, + - * // % << >> & | ^ ** ~, comparisons, `is None`, `in / not in` a
               feature set, `and / or / not` (short circuit: an operand that can raise is only evaluated when Python
               evaluates it), `a if c else b`, max/min, isinstance(x, Interface | wiring.FlippedInterface),
               hasattr(x, s), flipped(x), Feature(s), Feature.<MEMBER>, exact_log2(n), attribute reads.
-              Evaluation is left to right; every operation that can raise is bound with `let!` in that order.
+              Evaluation is left to right; every operation that can raise is bound with `let!` in that order
+              (`//` and `%` are Z.div / Z.modulo: a zero divisor, ZeroDivisionError, is not represented).
  objects      `sub_bus`, `intr_bus`, `self.bus`: `bobj` of Lib/BusRep.v - what the code can observe of the object:
               is it a wishbone.Interface / csr.Interface / something else, is it wrapped in a FlippedInterface, its
               widths, granularity and feature list, the identity of its memory map.  An attribute read is `res`
@@ -824,10 +826,14 @@ class T:
         carried = [x for x in locals_assigned(st.body) + [st.target.id] if x in names_loaded(rest)]
         if carried:
             raise Untranslatable(f"variables carried out of the loop: {carried}")
+        outer = [x for x in locals_assigned(st.body) if x in env or x == st.target.id]
+        if outer:
+            raise Untranslatable(f"the loop body assigns variables that live across iterations: {outer}")
         x = st.target.id
-        env2 = dict(env); env2[x] = V(x, "str")
+        nm = self.fresh(x)
+        env2 = dict(env); env2[x] = V(nm, "str")
         body = self.block(st.body, env2, "pure", lambda e: "(Ok true)", loop=True)
-        return self.c_bind(mode, f"(loop_each (fun {x} =>\n  {body}) {lst})", env, "_", self.block(rest, env, mode, k, loop))
+        return self.c_bind(mode, f"(loop_each (fun {nm} =>\n  {body}) {lst})", env, "_", self.block(rest, env, mode, k, loop))
 
 
 # ---------------------------------------------------------------------------------------------------- methods
@@ -870,6 +876,11 @@ def cname(p):
 
 def gen_method(mod, spec):
     fn = find_func(mod.tree, spec["path"])
+    cls = find_func(mod.tree, spec["path"][:-1])
+    defs = [x for x in cls.body if (isinstance(x, (ast.FunctionDef, ast.AsyncFunctionDef, ast.ClassDef)) and x.name == spec["path"][-1])
+            or (isinstance(x, ast.Assign) and spec["path"][-1] in [ast.unparse(t) for t in x.targets])]
+    if len(defs) != 1:
+        raise Untranslatable(f"{'.'.join(spec['path'])} is defined {len(defs)} times")
     a = fn.args
     if a.vararg or a.kwarg or a.posonlyargs or fn.decorator_list or not a.args or a.args[0].arg != "self":
         raise Untranslatable(f"{'.'.join(spec['path'])}: signature form")
